@@ -1,7 +1,7 @@
 (* C19 -- custom conversion rules apply the same way whatever units sit on either side.
    Statements only (proofs: Proofs/C19P.v) over Model/URules.v, for ALL rule lists, units and rule coefficients. *)
 From Coq Require Import List ZArith QArith Bool Reals.
-From Verif Require Import Sexp UnitAlg UnitAlgP UStore URules C19P.
+From Verif Require Import Sexp UnitAlg UnitAlgP UStore URules C19P C19ChainP.
 Import ListNotations.
 
 (* conversions that do not need a rule are unaffected by any set of registered rules *)
@@ -43,3 +43,14 @@ Theorem C19_single_rule_value : forall r a b st c,
   (r_div r = true -> (a_q st == 1 / r_kq r)%Q /\ (scaleR c = scaleR a / scaleR (r_kunit r) / scaleR b)%R).
 Proof. exact single_rule_value. Qed.
 Print Assumptions C19_single_rule_value.
+
+(* the chain a successful conversion follows is a genuine path: every rule on it was registered, the first leaves the
+   dimension of the source unit, each next rule leaves the dimension the previous one arrives in, the last arrives in the
+   dimension of the target unit, and it is non-empty exactly when the dimensions differ - no rule is ever applied to a
+   quantity that does not have the rule's source dimension *)
+Theorem C19_chain_is_registered_path : forall rules a b st c,
+  convert_with_rules rules a b = Ok (st, c) ->
+  exists path, shortest (S (length rules)) rules [] a b = Some path /\ is_chain rules a path b /\
+               (same_dim a b = false -> path <> []).
+Proof. exact chain_is_registered_path. Qed.
+Print Assumptions C19_chain_is_registered_path.
